@@ -123,23 +123,81 @@ def builder_major(call):
         return None
 
 
+_SCORE_RE = None
+
+
 def parse_stdout(stdout):
-    """Label-addressed view of what the CLI printed (spacing is free, DESIGN 6.8)."""
+    """Label-addressed view of what the CLI printed. Labels are matched case-insensitively, spacing and
+    the separator (':' or '=') are free (DESIGN 6.8); the JSON document is the first '{' from which a
+    JSON object parses, wherever on its line it starts."""
+    import re
+
+    global _SCORE_RE
+    if _SCORE_RE is None:
+        _SCORE_RE = {
+            "score": re.compile(r"^\s*(base|temporal|environmental)\s+score\s*[:=]\s*(.*)$", re.I),
+            "clean": re.compile(r"^\s*clean(?:ed)?\s+vector\s*[:=]\s*(.*)$", re.I),
+            "rh": re.compile(r"^\s*red\s*hat\s+vector\s*[:=]\s*(.*)$", re.I),
+        }
     lines = stdout.split("\n")
-    view = {"scores": {}, "clean": None, "rh": None, "json_text": None, "json_label": False, "lines": lines}
+    view = {"scores": {}, "clean": None, "rh": None, "json_text": None, "json_doc": None, "json_label": False, "lines": lines,
+            "labels_found": 0}
+    canon_label = {"base": "Base Score", "temporal": "Temporal Score", "environmental": "Environmental Score"}
+    offset = 0
+    view["last_label_offset"] = -1
+    view["json_offset"] = -1
     for k, line in enumerate(lines):
-        for lab in SCORE_LABELS:
-            if line.startswith(lab + ":"):
-                view["scores"].setdefault(lab, []).append(line[len(lab) + 1:].split())
-        if line.startswith("Cleaned vector:"):
-            view["clean"] = line[len("Cleaned vector:"):].strip() if view["clean"] is None else ["dup"]
-        if line.startswith("Red Hat vector:"):
-            view["rh"] = line[len("Red Hat vector:"):].strip() if view["rh"] is None else ["dup"]
-        if line.startswith("CVSS vector in JSON"):
+        if _SCORE_RE["score"].match(line) or _SCORE_RE["clean"].match(line) or _SCORE_RE["rh"].match(line):
+            view["last_label_offset"] = offset
+        offset += len(line) + 1
+        m = _SCORE_RE["score"].match(line)
+        if m:
+            view["labels_found"] += 1
+            view["scores"].setdefault(canon_label[m.group(1).lower()], []).append(m.group(2).split())
+        m = _SCORE_RE["clean"].match(line)
+        if m:
+            view["labels_found"] += 1
+            view["clean"] = m.group(1).strip() if view["clean"] is None else ["dup"]
+        m = _SCORE_RE["rh"].match(line)
+        if m:
+            view["labels_found"] += 1
+            view["rh"] = m.group(1).strip() if view["rh"] is None else ["dup"]
+        if "json" in line.lower() and "{" not in line:
             view["json_label"] = True
-        if line.startswith("{") and view["json_text"] is None:
-            view["json_text"] = "\n".join(lines[k:])
+    dec = json.JSONDecoder(object_pairs_hook=OrderedDict)
+    pos = stdout.find("{")
+    while pos >= 0:
+        try:
+            doc, end = dec.raw_decode(stdout, pos)
+            if isinstance(doc, dict):
+                view["json_doc"] = doc
+                view["json_text"] = stdout[pos:end]
+                view["json_offset"] = pos
+                break
+        except ValueError:
+            if view["json_text"] is None:
+                view["json_text"] = stdout[pos:]  # something that starts like JSON but does not parse
+        pos = stdout.find("{", pos + 1)
     return view
+
+
+def result_text(res):
+    """What the CLI printed after the last read (the report, without the interactive dialogue)."""
+    chunks = []
+    for ev in res.get("events", []):
+        if ev[0] == "r":
+            chunks = []
+        elif ev[0] == "o":
+            chunks.append(ev[1])
+    return "".join(chunks) if res.get("events") else res.get("stdout", "")
+
+
+def looks_like_crash(text):
+    """stderr text that the statement forbids: a traceback or a Python warning."""
+    import re
+
+    return ("Traceback (most recent call last)" in text or re.search(r"\w+Warning: ", text) is not None or
+            re.search(r"^\w*(Error|Exception): ", text, re.M) is not None)
 
 
 def builder_version_string(call):
@@ -197,12 +255,13 @@ def judge(case_argv, res, ctors, labels=None):
         vio.append(violation(PROP, "a", "main-returns-nonzero",
                              "main() returned %r, which the installed console script (sys.exit(main())) turns into a non-zero exit status / a message on stderr [argv=%r]"
                              % (res.get("main_returned"), case_argv)))
-    if res["stderr"] and not vio:
-        vio.append(violation(PROP, "a", "stderr-not-empty", "stderr: %r  [argv=%r]" % (res["stderr"][:200], case_argv)))
+    if res["stderr"] and not vio and looks_like_crash(res["stderr"]):
+        vio.append(violation(PROP, "a", "traceback-or-warning-on-stderr", "stderr: %r  [argv=%r]" % (res["stderr"][-300:], case_argv)))
     if vio or case["informational"]:
         return vio, info
-    view = parse_stdout(res["stdout"])
-    has_scores = bool(view["scores"]) or view["clean"] is not None or view["rh"] is not None or view["json_text"] is not None
+    report = result_text(res)
+    view = parse_stdout(report)
+    has_scores = bool(view["scores"]) or view["clean"] is not None or view["rh"] is not None or view["json_doc"] is not None
     # ---- which vector was scored ----
     if case["interactive"]:
         calls = res["builder_calls"]
@@ -258,7 +317,7 @@ def judge(case_argv, res, ctors, labels=None):
         # ---- clause c: the library's message, and nothing that looks like a result ----
         info["reached"] = info["reached"] or "c"
         msg = str(e)
-        if msg not in res["stdout"]:
+        if msg not in res["stdout"] and msg not in res["stderr"]:
             vio.append(violation(PROP, "c", "error-message-missing:%s" % type(e).__name__,
                                  "stdout lacks the library's message %r [argv=%r]" % (msg[:120], case_argv)))
         if has_scores:
@@ -271,7 +330,34 @@ def judge(case_argv, res, ctors, labels=None):
     info["reached"] = info["reached"] or "b"
     scores = obj.scores()
     sevs = obj.severities()
-    for i, lab in enumerate(SCORE_LABELS):
+    if view["labels_found"] == 0:
+        # the report does not use the labels this oracle knows (a re-worded report): fall back to the
+        # values themselves, which the statement demands whatever they are called
+        info["labels_unrecognised"] = True
+        toks = [t.strip(",;") for t in report.split()]
+        want = []
+        for i in range(len(scores)):
+            want.append(str(scores[i]))
+            if sel != "2":
+                want.append("(%s)" % sevs[i])
+        want += [obj.clean_vector(), obj.rh_vector()]
+        pos = 0
+        for w in want:
+            try:
+                pos = toks.index(w, pos) + 1
+            except ValueError:
+                if w in toks:
+                    continue  # present, only the order differs from the usual one
+                vio.append(violation(PROP, "b", "value-missing:%s" % sel[0],
+                                     "the report lacks %r (scores %r, ratings %r, cleaned %r) [argv=%r]" %
+                                     (w, scores, sevs, obj.clean_vector(), case_argv)))
+                break
+        view["scores"] = {}
+        view["clean"], view["rh"] = obj.clean_vector(), obj.rh_vector()
+        scores_to_check = ()
+    else:
+        scores_to_check = SCORE_LABELS
+    for i, lab in enumerate(scores_to_check):
         got = view["scores"].get(lab)
         if i >= len(scores):
             if got:
@@ -307,10 +393,13 @@ def judge(case_argv, res, ctors, labels=None):
         if view["json_text"] is None:
             vio.append(violation(PROP, "b", "json-missing:%s" % sel[0], "-j given, no JSON document on stdout"))
         else:
-            try:
-                got = json.loads(view["json_text"], object_pairs_hook=OrderedDict)
-            except ValueError as e:
-                vio.append(violation(PROP, "b", "json-unparsable:%s" % sel[0], "JSON on stdout does not parse: %s" % e))
+            got = view["json_doc"]
+            if got is not None and 0 <= view["json_offset"] < view["last_label_offset"]:
+                vio.append(violation(PROP, "b", "json-before-report:%s" % sel[0],
+                                     "the JSON document reaches stdout before the score / vector lines it belongs after "
+                                     "(output order scrambled) [argv=%r]" % (case_argv,)))
+            if got is None:
+                vio.append(violation(PROP, "b", "json-unparsable:%s" % sel[0], "no JSON object parses from the '{' on stdout: %r" % view["json_text"][:80]))
             else:
                 if got != want:
                     vio.append(violation(PROP, "b", "json-content-differs:%s" % sel[0],
@@ -319,7 +408,7 @@ def judge(case_argv, res, ctors, labels=None):
                 elif list(got.items()) != list(want.items()):
                     vio.append(violation(PROP, "b", "json-order-differs:%s" % sel[0], "JSON keys not in the order of the sorted as_json()"))
     else:
-        if view["json_text"] is not None or view["json_label"]:
+        if view["json_doc"] is not None:
             vio.append(violation(PROP, "b", "json-unrequested:%s" % sel[0], "JSON printed without -j"))
     return vio, info
 
@@ -386,7 +475,7 @@ class EofAtAgent(object):
         self.refuse_first = refuse_first
 
     def answer(self, index, prompt):
-        label, offered = runner23.parse_prompt(prompt)
+        label, offered = runner23.parse_prompt(prompt, self.labels)
         m = self.labels.get(label)
         value = self.sp.values[m][0] if m in self.sp.values else (offered[0] if offered else "N")
         if index == self.k:
@@ -496,6 +585,8 @@ class CliEngine(object):
             res2 = dict(res)
             res2.update(real)
             res2["exc"] = None
+            res2["events"] = []  # judge the real stdout as a whole, not the simulated event log
+            res2["main_returned"] = None
             vio, _ = judge(item["argv"], res2, self.ctors, None)
             for v in vio:
                 v["sig"] += ":real-process"
